@@ -98,3 +98,124 @@ def sat(f, signature):
         if ev(f, w):
             return True
     return False
+
+
+# --------------------------------------------------------------------------------------
+# reading back texts written by render() (used by the shrinkers to simplify formulas)
+# --------------------------------------------------------------------------------------
+def parse(text):
+    """Parse a formula in the library's input syntax as written by render(): '!' binds tightest,
+    every compound sub-formula below the top level is parenthesised, one operator per level."""
+    toks = []
+    i = 0
+    while i < len(text):
+        c = text[i]
+        if c.isspace():
+            i += 1
+        elif c in "!,;()":
+            toks.append(c)
+            i += 1
+        else:
+            j = i
+            while j < len(text) and (text[j].isalnum() or text[j] in "_-"):
+                j += 1
+            if j == i:
+                raise ValueError("bad character %r" % c)
+            toks.append(text[i:j])
+            i = j
+    pos = [0]
+
+    def peek():
+        return toks[pos[0]] if pos[0] < len(toks) else None
+
+    def take():
+        t = peek()
+        pos[0] += 1
+        return t
+
+    def unary():
+        t = take()
+        if t == "!":
+            return ("not", unary())
+        if t == "(":
+            f = level()
+            if take() != ")":
+                raise ValueError("missing )")
+            return f
+        if t == "Top":
+            return ("top",)
+        if t == "Bottom":
+            return ("bot",)
+        if t is None or t in ",;)":
+            raise ValueError("unexpected %r" % (t,))
+        return ("var", t)
+
+    def level():
+        items = [unary()]
+        op = None
+        while peek() in (",", ";"):
+            o = take()
+            if op is None:
+                op = o
+            elif o != op:
+                raise ValueError("mixed operators on one level")
+            items.append(unary())
+        if op is None:
+            return items[0]
+        return (("and",) if op == "," else ("or",)) + tuple(items)
+
+    f = level()
+    if pos[0] != len(toks):
+        raise ValueError("trailing input")
+    return f
+
+
+def simpler(f):
+    """Strictly smaller candidates for a formula: its direct sub-formulas, and itself with one
+    argument dropped."""
+    out = []
+    if f[0] == "not":
+        out.append(f[1])
+    elif f[0] in ("and", "or"):
+        out.extend(f[1:])
+        if len(f) > 3:
+            for i in range(1, len(f)):
+                out.append(f[:i] + f[i + 1 :])
+    return out
+
+
+def split_conditional(text):
+    """'(B|A)' -> (B_text, A_text), splitting at the top-level bar."""
+    body = text.strip()
+    if not (body.startswith("(") and body.endswith(")")):
+        raise ValueError("not a conditional")
+    body = body[1:-1]
+    depth = 0
+    for i, c in enumerate(body):
+        if c == "(":
+            depth += 1
+        elif c == ")":
+            depth -= 1
+        elif c == "|" and depth == 0:
+            return body[:i], body[i + 1 :]
+    raise ValueError("no bar")
+
+
+def simpler_conditionals(text, limit=6):
+    """Texts of conditionals obtained by simplifying the consequent or the antecedent."""
+    try:
+        b, a = split_conditional(text)
+        fb, fa = parse(b), parse(a)
+    except ValueError:
+        return []
+    out = []
+    for g in simpler(fb):
+        out.append("(%s|%s)" % (render(g), render(fa)))
+    for g in simpler(fa):
+        out.append("(%s|%s)" % (render(fb), render(g)))
+    seen, res = set(), []
+    for t in out:
+        if t != text and t not in seen:
+            seen.add(t)
+            res.append(t)
+    return res[:limit]
